@@ -28,7 +28,7 @@ import (
 	"go.etcd.io/etcd/raft/v3/tracker"
 )
 
-const truncUnit = time.Minute // one clock unit of a sequence
+const truncUnit = time.Hour // one clock unit of a sequence (the real time a sequence takes is far below half a unit)
 
 type TRound struct {
 	Adv   int      `json:"adv"`   // clock units that pass before this round
